@@ -23,6 +23,7 @@ def gen_case(seed, idx):
     model = objgen.gen_objlib(rng)
     header, dump = objgen.render_objlib(model, rng)
     header += '#define FOO_LIMIT 10\nvoid foo_free_standing (gint x);\nFooRec *foo_free_make (void);\nvoid foo_rec_frob (FooRec *self);\nFooRec *foo_rec_new (void);\n'
+    header += c03.role_decls(model)
     targets = c03.targets_of(model, header)
     source, blocks = c03.gen_blocks(rng, targets, model)
     # split the blocks over three source files
